@@ -532,6 +532,11 @@ func (w *DispatchWorld) onAttempt(a queue.DeliveryAttempt, err error) {
 					if ok, _ := eg.allowed(abs, d.lookups[host]); !ok {
 						final = "denied"
 						w.Res.probe("egress.denied.redirect_hop")
+					} else if d.failed[host] {
+						// the name of the next hop does not resolve: an ordinary
+						// retryable error (as for the first hop), not the 3xx
+						final = "error"
+						w.Res.probe("egress.redirect_hop.dnsfail")
 					}
 				}
 			}
@@ -554,7 +559,7 @@ func (w *DispatchWorld) onAttempt(a queue.DeliveryAttempt, err error) {
 		dm.ok2xx++
 	}
 	w.Res.probe("deliver." + final + "." + outcome)
-	w.Res.logf("  delivery %s attempt=%d hops=%d final=%s/%d -> recorded outcome=%s reason=%q status=%d", dm.token, a.Attempt, len(d.hops), final, status, a.Outcome, a.DeadReason, a.StatusCode)
+	w.Res.logf("  delivery %s attempt=%d hops=%d final=%s/%d -> recorded outcome=%s reason=%q status=%d%s", dm.token, a.Attempt, len(d.hops), final, status, a.Outcome, a.DeadReason, a.StatusCode, debugErr(a.Error))
 
 	if a.Attempt != wantAttempt {
 		w.add("C06.attempt.number", "C06", loc, "attempt record for %s carries attempt %d, the lease says %d", dm.token, a.Attempt, wantAttempt)
@@ -1260,4 +1265,13 @@ func (w *DispatchWorld) InterleaveStep(s Step) {
 		return
 	}
 	w.sync("interleave")
+}
+
+// debugErr: the error text of an attempt record, shown only when VERIF_DEBUG_ERR is set
+// (error texts are not part of the event log: they are not compared and may differ between backends).
+func debugErr(s string) string {
+	if os.Getenv("VERIF_DEBUG_ERR") == "" || s == "" {
+		return ""
+	}
+	return " err=" + s
 }
